@@ -65,6 +65,8 @@ type Contract struct {
 	Loops    map[int]*LoopSpec
 	Rels     []Clause
 	Chains   []Chain
+	PathKeys []Clause // integer expressions whose (constant) value at a return is appended to obligation names
+	CallAssumes map[string][]Clause // callee name -> assumptions made at its call sites (documented, unproved)
 	Params   map[string]string
 	Line     int
 	Opts     map[string]string
@@ -104,7 +106,7 @@ type ContractFile struct {
 	Lemmas    []*Lemma
 }
 
-var kwRe = regexp.MustCompile(`^(func|mode|inline|trusted|param|let|requires|ensures|assigns|loop|invariant|modifies|decreases|rel|chain|spec|lemma|opt)\b`)
+var kwRe = regexp.MustCompile(`^(func|mode|inline|trusted|param|let|requires|ensures|assigns|loop|invariant|modifies|decreases|rel|chain|assume_at_call|pathkey|spec|lemma|opt)\b`)
 
 func ParseContracts(path string) (*ContractFile, error) {
 	f, err := os.Open(path)
@@ -148,11 +150,18 @@ func ParseContracts(path string) (*ContractFile, error) {
 		var out []logical
 		for i := 0; i < len(lines); {
 			j := i + 1
-			if strings.HasPrefix(lines[i].text, "func ") {
-				for j < len(lines) && !strings.HasPrefix(lines[j].text, "func ") && !strings.HasPrefix(lines[j].text, "spec ") && !strings.HasPrefix(lines[j].text, "lemma ") {
+			isSpec := strings.HasPrefix(lines[i].text, "spec ")
+			if strings.HasPrefix(lines[i].text, "func ") || isSpec {
+				for !isSpec && j < len(lines) && !strings.HasPrefix(lines[j].text, "func ") && !strings.HasPrefix(lines[j].text, "spec ") && !strings.HasPrefix(lines[j].text, "lemma ") {
 					j++
 				}
-				a, b := strings.Index(lines[i].text, "{"), strings.Index(lines[i].text, "}")
+				head := lines[i].text
+				if isSpec {
+					if k := strings.Index(head, "="); k >= 0 {
+						head = head[:k]
+					}
+				}
+				a, b := strings.Index(head, "{"), strings.Index(head, "}")
 				if a >= 0 && b > a {
 					for _, alt := range strings.Split(lines[i].text[a+1:b], ",") {
 						alt = strings.TrimSpace(alt)
@@ -321,6 +330,30 @@ func ParseContracts(path string) (*ContractFile, error) {
 					cc := c
 					curLoop.Decreases = &cc
 				}
+			case "pathkey":
+				if rest == "ret" {
+					cur.PathKeys = append(cur.PathKeys, Clause{Src: "ret", Line: l.line})
+					break
+				}
+				e, err := parse(rest)
+				if err != nil {
+					return nil, err
+				}
+				cur.PathKeys = append(cur.PathKeys, Clause{Src: rest, Expr: e, Line: l.line})
+			case "assume_at_call":
+				parts := strings.SplitN(rest, " : ", 2)
+				if len(parts) != 2 {
+					return nil, fail("assume_at_call <callee> : <expr>")
+				}
+				e, err := parse(strings.TrimSpace(parts[1]))
+				if err != nil {
+					return nil, err
+				}
+				if cur.CallAssumes == nil {
+					cur.CallAssumes = map[string][]Clause{}
+				}
+				callee := normName(strings.TrimSpace(parts[0]))
+				cur.CallAssumes[callee] = append(cur.CallAssumes[callee], Clause{Src: rest, Expr: e, Line: l.line})
 			case "chain":
 				label := ""
 				if strings.HasPrefix(rest, "[") {
